@@ -12,7 +12,7 @@ package common
 //              bytes <= B + (bps/0.8)*interval, B = max(4 ms * bps/0.8, 10 * MTUmax) + MTUmax.
 //   progress   gate closed  =>  TimeUntilSend() is non-zero and strictly after now, and at that time
 //              (no send / bandwidth change / MTU change in between) Budget >= one full datagram.
-//   rate floor a saturated loop (always data, woken exactly at the announced times) moves at least
+//   rate floor (observed only, counter obs_saturated_rate_below_bandwidth) a saturated loop (always data, woken exactly at the announced times) moves at least
 //              bps * elapsed bytes, minus one datagram and integer rounding.
 //   sanity     Budget is never negative.
 
